@@ -21,6 +21,18 @@ impl<'a, 'b> Gen<'a, 'b> {
                     self.const_expr(1);
                     self.vars.push(name);
                 }
+                if self.t.chance(1, 3) {
+                    // { , parameter_port_declaration }: data_type list_of_param_assignments with a user-defined type
+                    self.tag("param-port-user-type");
+                    self.sym(",");
+                    self.user_type_name();
+                    let name = self.fresh();
+                    let tk = self.id(&name);
+                    self.expect(tk, "ParameterIdentifier", F_PARAM, &["ParamAssignment"]);
+                    self.sym("=");
+                    self.const_expr(1);
+                    self.vars.push(name);
+                }
             }
             _ => {
                 let n = 1 + self.t.below(3);
@@ -31,8 +43,13 @@ impl<'a, 'b> Gen<'a, 'b> {
                     if self.t.chance(1, 5) {
                         // data_type list_of_param_assignments | type list_of_type_assignments
                         if self.t.flip() {
-                            let ty = *self.t.pick(&["int", "logic", "bit", "integer"]);
-                            self.kw(ty);
+                            if self.t.chance(1, 3) {
+                                self.tag("param-port-user-type");
+                                self.user_type_name();
+                            } else {
+                                let ty = *self.t.pick(&["int", "logic", "bit", "integer"]);
+                                self.kw(ty);
+                            }
                             let name = self.fresh();
                             let tk = self.id(&name);
                             self.expect(tk, "ParameterIdentifier", F_PARAM, &["ParamAssignment"]);
@@ -54,6 +71,45 @@ impl<'a, 'b> Gen<'a, 'b> {
             }
         }
         self.sym(")");
+    }
+
+    /// a user-defined type: plain, package-scoped or class-scoped type identifier
+    pub fn user_type_name(&mut self) {
+        match self.t.below(3) {
+            0 => {
+                self.id("user_t");
+            }
+            1 => {
+                self.id("some_pkg");
+                self.sym("::");
+                self.id("item_t");
+            }
+            _ => {
+                self.id("Cls_p");
+                self.sym("#");
+                self.sym("(");
+                self.small_const();
+                self.sym(")");
+                self.sym("::");
+                self.id("item_t");
+            }
+        }
+    }
+
+    /// variable_dimension that only a variable (not a net) port / declaration can carry
+    pub fn variable_only_dimension(&mut self) {
+        self.tag("port-variable-dimension");
+        self.sym("[");
+        match self.t.below(3) {
+            0 => {}
+            1 => {
+                self.kw("string");
+            }
+            _ => {
+                self.sym("*");
+            }
+        }
+        self.sym("]");
     }
 
     pub fn ansi_port_list(&mut self, elem: &'static str) {
@@ -130,14 +186,19 @@ impl<'a, 'b> Gen<'a, 'b> {
                             }
                         }
                     }
+                    let explicit_type = matches!(self.p.toks.last().map(|x| x.text.as_str()), Some("int") | Some("integer") | Some("byte") | Some("real") | Some("string") | Some("logic") | Some("bit") | Some("reg"));
                     let name = self.fresh_special();
                     let tk = self.id(&name);
-                    if unambiguous_var {
+                    // an unsized / associative dimension exists only in variable_dimension: the variable form
+                    let var_dim = explicit_type && d != "inout" && self.t.chance(1, 6);
+                    if unambiguous_var || var_dim {
                         self.expect(tk, "PortIdentifier", F_PORT, &["AnsiPortDeclarationVariable"]);
                     } else {
                         self.expect(tk, "PortIdentifier", F_PORT, &["AnsiPortDeclarationNet", "AnsiPortDeclarationVariable"]);
                     }
-                    if self.t.chance(1, 6) {
+                    if var_dim {
+                        self.variable_only_dimension();
+                    } else if self.t.chance(1, 6) {
                         self.range();
                     }
                     if d == "input" && self.t.chance(1, 6) {
@@ -259,6 +320,10 @@ impl<'a, 'b> Gen<'a, 'b> {
             kinds.push("PortDeclaration");
             // the variable forms use list_of_variable_identifiers (input) / list_of_variable_port_identifiers (output)
             self.p.expects.push(Expect { tok: tk, name_kind: "PortIdentifier|VariableIdentifier", family: F_PORT, expected: kinds });
+            if variable_form && self.t.chance(1, 6) {
+                // list_of_variable_identifiers / list_of_variable_port_identifiers: { variable_dimension }
+                self.variable_only_dimension();
+            }
             if d == "output" && variable_form && self.t.chance(1, 3) {
                 // list_of_variable_port_identifiers: port_identifier { variable_dimension } [ = constant_expression ]
                 self.tag("output-variable-initialiser");
